@@ -17,6 +17,7 @@
 #include <atomic>
 #include <chrono>
 #include <memory>
+#include <string>
 #include <thread>
 #include <vector>
 
@@ -46,9 +47,24 @@ int main(int argc, char** argv)
     MPI_Init_thread(&argc, &argv, MPI_THREAD_MULTIPLE, &provided);
     std::vector<char*> av;
     av.push_back(argv[0]);
-    for (int i = 5; i < argc; ++i) av.push_back(argv[i]);
+    bool with_pool = false;
+    for (int i = 5; i < argc; ++i)
+    {
+        if (std::string(argv[i]) == "--verif-mpi-pool") with_pool = true;
+        else av.push_back(argv[i]);
+    }
     int ac = (int) av.size();
-    pika::start(nullptr, ac, av.data());
+    pika::init_params ip;
+    if (with_pool)
+    {
+        // a dedicated single-worker polling pool (on one rank pika would decide not to create it, so it
+        // is forced, the way pika's own pool_creation test does)
+        ip.rp_callback = [](pika::resource::partitioner& rp, pika::program_options::variables_map const&) {
+            mpi::detail::create_pool(rp, "", mpi::polling_pool_creation_mode::mode_force_create);
+        };
+    }
+    pika::start(nullptr, ac, av.data(), ip);
+    int const pool_on = mpi::detail::get_pool_enabled() ? 1 : 0;
     vlog::rng R(seed * 1566083941 + 9);
     MPI_Comm comm = MPI_COMM_WORLD;
 
@@ -66,7 +82,7 @@ int main(int argc, char** argv)
         if (char const* fl = std::getenv("VERIF_MPI_LEN")) len = std::atoi(fl);
         bool use_wait = R.chance(3, 4);
         int slow = R.chance(1, 2) ? 100 + (int) R.below(1500) : 0;
-        ev("init").i("mode", mode).i("n", n).i("len", len).done();
+        ev("init").i("mode", mode).i("n", n).i("len", len).i("pool", pool_on).done();
         mpi::detail::set_completion_mode((std::size_t) mode);
         std::vector<std::unique_ptr<slot>> slots;
         for (int k = 0; k < n; ++k)
